@@ -1,6 +1,7 @@
 #include "lra_theory.h"
 #include "lra_constraint.h"
 #include "lra_value_listener.h"
+#include "verif_hooks.h"
 #include <algorithm>
 #include <cassert>
 
@@ -62,6 +63,7 @@ namespace smt
 
     SMT_EXPORT lit lra_theory::new_lt(const lin &left, const lin &right) noexcept
     {
+        ORATIO_VERIF_WRAP(new_lt(left, right), def_lra(this, "lt", left, right, vr_));
         lin expr = left - right;
         std::vector<var> vars;
         vars.reserve(expr.vars.size());
@@ -105,6 +107,7 @@ namespace smt
 
     SMT_EXPORT lit lra_theory::new_leq(const lin &left, const lin &right) noexcept
     {
+        ORATIO_VERIF_WRAP(new_leq(left, right), def_lra(this, "leq", left, right, vr_));
         lin expr = left - right;
         std::vector<var> vars;
         vars.reserve(expr.vars.size());
@@ -148,6 +151,7 @@ namespace smt
 
     SMT_EXPORT lit lra_theory::new_geq(const lin &left, const lin &right) noexcept
     {
+        ORATIO_VERIF_WRAP(new_geq(left, right), def_lra(this, "geq", left, right, vr_));
         lin expr = left - right;
         std::vector<var> vars;
         vars.reserve(expr.vars.size());
@@ -191,6 +195,7 @@ namespace smt
 
     SMT_EXPORT lit lra_theory::new_gt(const lin &left, const lin &right) noexcept
     {
+        ORATIO_VERIF_WRAP(new_gt(left, right), def_lra(this, "gt", left, right, vr_));
         lin expr = left - right;
         std::vector<var> vars;
         vars.reserve(expr.vars.size());
